@@ -644,12 +644,17 @@ def iteration_count(rep, F, E, tag, rid):
             t = bl['t']
             if t['k'] == 'switch' and bi not in lbody:
                 k = canon(s.sym_operand(t['d']))
-                if k.startswith('eq(') and 'zero()' in k and 'var:' in k:
-                    guard = (bi, t)
+                if k.startswith(('eq(', 'ne(', 'not(eq(', 'not(ne(')) and 'zero()' in k and 'var:' in k:
+                    guard = (bi, t, k)
         if guard is None:
             raise AnchorError('post-loop `alpha == 0` test not found')
-        gb, gt = guard
-        true_succ = gt['o']
+        gb, gt, gk = guard
+        # the successor taken when alpha == 0, whichever way round the test is written
+        zero_t = [tb for v_, tb in gt['ts'] if int(v_) == 0]
+        if gk.startswith(('eq(', 'not(ne(')):
+            true_succ = gt['o']
+        else:
+            true_succ = zero_t[0] if zero_t else gt['o']
         for b in inc:
             state = {b: 'OTHER'}
             work = [b]
